@@ -196,6 +196,19 @@ def glexindex_exact(inp):
         return f"duplicates in {got_l}"
     if got_l != want:
         return f"got {got_l} expected {want}"
+    # history: the returned array belongs to the caller; editing it in place must not influence a later call
+    # (platform- and history-independence: no result may be handed out twice)
+    try:
+        arr = numpy.asarray(got)
+        if arr.size and arr.flags.writeable:
+            arr += 3
+    except Exception:
+        pass
+    for f in (lambda: numpoly.glexindex(start=inp["start"], stop=inp["stop"], dimensions=D, cross_truncation=ct,
+                                        graded=inp["graded"], reverse=inp["reverse"]),):
+        again = [tuple(int(v) for v in row) for row in numpy.asarray(f()).reshape(-1, D)]
+        if again != want:
+            return f"second call with the same arguments (after the first result was edited in place) got {again} expected {want}"
     return None
 
 
